@@ -9,13 +9,17 @@
 
 namespace ys {
 
-// generator::write_static_offsets<Policy> / <method of slot>
+// generator::write_static_offsets<Policy> / <method of slot>. The generator
+// object lives as long as the simulated process (glue_new_generator at its
+// start), unless fresh is set: then a new object is made for this call.
 template<class P>
-std::string glue_offsets(int slot);
+std::string glue_offsets(int slot, bool fresh);
+template<class P>
+void glue_new_generator();
 
 // generator::write_static_offsets<Policy> only (typed world)
 template<class P>
-std::string glue_offsets_policy();
+std::string glue_offsets_policy(bool fresh);
 
 // generator::encode_dispatch_data(compiler, policy_name, os)
 template<class P>
